@@ -2,7 +2,7 @@
 # For every "fixed:" entry in KNOWN_FINDINGS.txt: revert that commit in a scratch worktree and confirm that the
 # property's quick check reports the violation again (a fixed entry suppresses nothing).
 cd "$(dirname "$0")/.." || exit 2
-WT=/tmp/vf-revert-wt
+WT=/tmp/vf-revert-wt-$$
 grep "^fixed:" KNOWN_FINDINGS.txt | grep -E "${REVERT_ONLY:-.}" | while read -r _ prop sha rest; do
   prop=${prop#property=}
   git -C /repo worktree remove --force $WT >/dev/null 2>&1; rm -rf $WT
